@@ -7,6 +7,7 @@ import (
 
 	"verifharness/disc"
 	"verifharness/ec"
+	"verifharness/gold"
 	"verifharness/ka"
 	"verifharness/kms"
 	"verifharness/pl"
@@ -29,6 +30,7 @@ var checks = map[string]func(*vk.Run){
 	"C20": kms.RunC20,
 	"C16": disc.RunC16,
 	"C19": pl.RunC19,
+	"C06": gold.RunC06,
 }
 
 func main() {
